@@ -42,7 +42,11 @@ def _analyse(args):
         errs = [r.error for r in reports if getattr(r, "error", None)]
         if errs and not ks:
             return ("analysis-error", "; ".join(errs))
-        return ("ok", [(list(k), f.message) for k, f in ks.items()])
+        # a rule that cannot decide on the variant is reported next to the findings of the other rules (it must not be hidden by them: a twin on which a rule
+        # answers "cannot decide" is a self-test problem, and it is not a detection of a breaking variant)
+        out = [(list(k), f.message) for k, f in ks.items()]
+        out += [([prop, "ANALYSIS-ERROR", "", "", e], e) for e in errs]
+        return ("ok", out)
     except AnalysisError as e:
         return ("analysis-error", str(e))
     except Exception as e:  # pragma: no cover
